@@ -47,7 +47,9 @@ def worker_main(modname):
         out.write(json.dumps(r) + "\n"); out.flush()
 
 
-def _run_batch(modname, batch, timeout):
+def _run_batch(modname, batch, timeout, deadline=None):
+    if deadline is not None and time.monotonic() > deadline:
+        return [{"status": "skipped", "case": c, "wall": 0} for c in batch]      # time budget of the tier used up: not started, not judged
     env = dict(os.environ)
     env.setdefault("PYTHONHASHSEED", "0")
     env["PYTHONPATH"] = VERIF
@@ -82,12 +84,20 @@ def run_check(modname, tier, seed, only_case=None):
     batch_n = getattr(mod, "BATCH", 1)
     case_to = getattr(mod, "CASE_TIMEOUT", 300)
     jobs = int(os.environ.get("VERIF_JOBS", getattr(mod, "JOBS", 16)))
+    # dedicated cases (known mechanisms, directed scenarios) run first so that a time budget never cuts them off
+    cases = [c for c in cases if c.get("_first")] + [c for c in cases if not c.get("_first")]
     batches = [cases[i:i + batch_n] for i in range(0, len(cases), batch_n)]
+    # wall-clock budget of the tier: cases not started when it is used up are reported as not run (never as held)
+    budget = float(os.environ.get("VERIF_BUDGET_S", getattr(mod, "BUDGET_S", {}).get(tier, 0) if isinstance(getattr(mod, "BUDGET_S", None), dict) else (1500 if tier == "thorough" else 0)))
+    deadline = (t0 + budget) if budget > 0 and only_case is None else None
     results = []
     with concurrent.futures.ThreadPoolExecutor(max_workers=jobs) as ex:
-        futs = [ex.submit(_run_batch, modname, b, case_to * len(b) + 30) for b in batches]
+        futs = [ex.submit(_run_batch, modname, b, case_to * len(b) + 30, deadline) for b in batches]
         for f in concurrent.futures.as_completed(futs):
             results.extend(f.result())
+    planned = len(results)
+    skipped = sum(1 for r in results if r["status"] == "skipped")
+    results = [r for r in results if r["status"] != "skipped"]
     results.sort(key=lambda r: json.dumps(r["case"], sort_keys=True))
 
     agg = {"evaluations": len(results), "held": 0, "trivial": 0, "inconclusive": 0, "violation": 0}
@@ -149,6 +159,7 @@ def run_check(modname, tier, seed, only_case=None):
     wall = time.monotonic() - t0
     cov = {
         "evaluations": len(results),
+        "planned_cases": planned, "cases_not_started_when_time_budget_ended": skipped, "time_budget_s": budget,
         "distinct_nontrivial": len(sigs),
         "rule": mod.RULE,
         "samples": samples or [r["case"] for r in results[:2]],
@@ -169,6 +180,8 @@ def run_check(modname, tier, seed, only_case=None):
         with open(os.path.join(evdir, pid + ".json"), "w") as f:
             json.dump(ev, f, indent=1, sort_keys=True)
             f.write("\n")
+    if skipped:
+        print("%s time budget of %.0fs used up: %d of %d planned cases run" % (pid, budget, len(results), planned))
     print("%s tier=%s seed=%d cases=%d held=%d trivial=%d inconclusive=%d violating=%d distinct_nontrivial=%d wall=%.0fs"
           % (pid, tier, seed, len(results), agg["held"], agg["trivial"], agg["inconclusive"], agg["violation"], len(sigs), wall))
     print("  counters: " + json.dumps(counters, sort_keys=True))
